@@ -239,6 +239,72 @@ def monotone_checks(res, gam, ref, Xq, d, rng):
             bad('partial-dependence interval is not centred on the partial dependence on the link scale', iv.tolist(), pd.tolist(), dict(term=t))
 
 
+def forced_fractional_df(rng, cls):
+    """a fitted scenario of an unknown-scale class with 0 < n_samples - edof < 1 (fewer rows than coefficients, light penalty):
+    9 or 8 rows, s(0, n_splines=20); lam is lowered until the residual degrees of freedom fall into (0, 1)"""
+    nprng = np.random.RandomState(rng.randrange(1 << 30))
+    for attempt in range(6):
+        n = rng.choice([9, 8, 10])
+        x = np.sort(nprng.rand(n))
+        sig = np.sin(5 * x + rng.uniform(0, 3))
+        y = sig + 0.3 * nprng.randn(n) if cls in ('LinearGAM', 'ExpectileGAM') else np.exp(0.5 * sig) * nprng.gamma(8.0, 1 / 8.0, size=n)
+        for lam in (0.1, 0.05, 0.03, 0.01, 0.003, 0.001, 0.0003, 0.0001):
+            spec = dict(kind='s', feature=0, n_splines=20, spline_order=3, lam=[lam], penalties=['auto'], constraints=[None], basis='ps', by=None,
+                        dtype='numerical', edge_knots=None)
+            kw = dict(max_iter=100, tol=1e-6, fit_intercept=False)
+            if cls == 'ExpectileGAM':
+                kw['expectile'] = 0.5
+            scn = dict(cls=cls, specs=[spec], X=x[:, None].copy(), y=y.copy(), w=None, kw=kw, regime='n<m', m=20, n=n, factor_feats=())
+            try:
+                gam = fit(scn)
+            except ValueError:
+                continue
+            df = gam.statistics_['n_samples'] - gam.statistics_['edof']
+            if 1e-3 < df < 0.999 and np.isfinite(gam.coef_).all() and np.isfinite(gam.statistics_['cov']).all():
+                return scn, gam
+            if df <= 1e-3:
+                break
+    return None, None
+
+
+def refit_same_object(res, gam, scn, d, Xq, qs, link, variant):
+    k = max(3, (2 * scn['n']) // 3)
+    Xs, ys = scn['X'][:k].copy(), scn['y'][:k].copy()
+    ws = None if scn['w'] is None else scn['w'][:k].copy()
+    try:
+        with warnings.catch_warnings(), np.errstate(all='ignore'):
+            warnings.simplefilter('ignore')
+            if variant == 'fit':
+                gam.fit(Xs, ys, weights=ws)
+                hist = 'fit(all rows); interval queries; SAME object: fit(first %d rows); confidence_intervals with the earlier levels' % k
+            else:
+                gam.gridsearch(Xs, ys, weights=ws, lam=np.logspace(-1, 2, 3), keep_best=True, progress=False)
+                hist = 'fit(all rows); interval queries; SAME object: gridsearch(first %d rows, lam=logspace(-1,2,3), keep_best=True); confidence_intervals with the earlier levels' % k
+        ref2 = Ref(gam, Xq)
+        ok2 = np.isfinite(gam.coef_).all() and np.isfinite(gam.statistics_['cov']).all() and (ref2.known or ref2.n - ref2.edof > 1e-6)
+    except Exception as e:      # a refit may legitimately fail (too few rows, non-convergence ...): count, the model is not used afterwards
+        res.count('refit of a queried model (%s) raised %s' % (variant, type(e).__name__))
+        return
+    if not ok2:
+        res.count('refit of a queried model (%s): degenerate fit, not compared' % variant)
+        return
+    res.count('refit of a queried model (%s), intervals compared again' % variant)
+    d2 = dict(d, history=hist)
+    idx = list(range(len(ref2.coef)))
+    with np.errstate(all='ignore'):
+        got = gam.confidence_intervals(Xq, quantiles=qs)
+    compare(res, ref2, got, idx, False, True, qs, 'confidence_intervals', d2, Xq, [], [], link, 'Gen_flags_confidence_intervals', idx, [0])
+    for t, term in enumerate(gam.terms):
+        if term.isintercept:
+            continue
+        tidx = list(gam.terms.get_coef_indices(t))
+        with np.errstate(all='ignore'):
+            pd, iv = gam.partial_dependence(term=t, X=Xq, quantiles=qs)
+        compare(res, ref2, iv, tidx, False, False, qs, 'partial_dependence', dict(d2, term=t), Xq, [], [], link, 'Gen_flags_partial_dependence', tidx, [0])
+        break
+
+
+UNKNOWN_SCALE = ['LinearGAM', 'GammaGAM', 'InvGaussGAM', 'ExpectileGAM']
 REJECT_LEVELS = [[0.0], [1.0], [0.3, 1.0], [-0.1, 0.5], [0.5, 1.5], [float('inf')], [float('-inf'), 0.2], [1.0000000000000002], [-5e-324]]
 REJECT_WIDTHS = [1.0, 1.5, -1.0, -3.0, float('inf')]
 ACCEPT_WIDTHS = [0.999999, 1e-9]
@@ -293,17 +359,31 @@ def run(res):
     coq_budget = [ncoq]
     regimes = ['n>m', 'n>m', 'n=m', 'n<m']
     nan_levels_accepted = 0
-    for i in range(nfits):
-        cls = gen_models.CLASSES[i % 6]
-        regime = regimes[(i // 6) % 4]
-        scn = gen_models.gen_scenario(rng, cls=cls, regime=regime, max_n=50 if res.tier == 'quick' else 120, max_m=16 if res.tier == 'quick' else 30)
-        over = dict(fit_intercept=True) if (i // 24) % 2 == 1 or rng.random() < 0.3 else {}
-        d = dict(gen_models.describe(scn), index=i, fit_intercept=bool(over))
-        try:
-            gam = fit(scn, **over)
-        except ValueError as e:
-            res.count('fit raised %s' % type(e).__name__)
-            continue
+    nforced = 4 if res.tier == 'quick' else 24
+    for i in range(nfits + nforced):
+        if i >= nfits:
+            # forced regime 0 < n - edof < 1 (unknown scale): the t quantile at a fractional number of degrees of freedom
+            cls = UNKNOWN_SCALE[(i - nfits) % len(UNKNOWN_SCALE)]
+            regime = 'n<m'
+            scn, gam = forced_fractional_df(rng, cls)
+            if scn is None:
+                res.count('forced 0 < n - edof < 1: not reached for %s' % cls)
+                continue
+            over = {}
+            d = dict(gen_models.describe(scn), index=i, fit_intercept=False, forced='0 < n_samples - edof < 1',
+                     X=scn['X'].ravel().tolist(), y=scn['y'].tolist())
+            res.count('forced 0 < n - edof < 1')
+        else:
+            cls = gen_models.CLASSES[i % 6]
+            regime = regimes[(i // 6) % 4]
+            scn = gen_models.gen_scenario(rng, cls=cls, regime=regime, max_n=50 if res.tier == 'quick' else 120, max_m=16 if res.tier == 'quick' else 30)
+            over = dict(fit_intercept=True) if (i // 24) % 2 == 1 or rng.random() < 0.3 else {}
+            d = dict(gen_models.describe(scn), index=i, fit_intercept=bool(over))
+            try:
+                gam = fit(scn, **over)
+            except ValueError as e:
+                res.count('fit raised %s' % type(e).__name__)
+                continue
         if not np.isfinite(gam.coef_).all() or not np.isfinite(gam.statistics_['cov']).all():
             res.count('non-finite fit (skipped)')
             continue
@@ -370,29 +450,6 @@ def run(res):
                                            observed=np.asarray(pd).tolist(), expected=lp_t.tolist()))
             compare(res, ref, iv, idxs, False, False, qs, 'partial_dependence', dict(d, term=t), Xq, goals, meta, link, 'Gen_flags_partial_dependence', idxs, coq_budget)
         monotone_checks(res, gam, ref, Xq, d, rng)
-        # the same object, refitted on fewer rows after it has answered interval queries: the bounds must follow the CURRENT n - edof / covariance
-        if i % 2 == 0 and scn['n'] >= 6:
-            k = max(3, (2 * scn['n']) // 3)
-            import copy as _copy
-            gam2 = _copy.deepcopy(gam)      # a refit that fails half-way leaves a model without statistics_: keep `gam` usable for the checks below
-            try:
-                with warnings.catch_warnings(), np.errstate(all='ignore'):
-                    warnings.simplefilter('ignore')
-                    if scn['w'] is None:
-                        gam2.fit(scn['X'][:k].copy(), scn['y'][:k].copy())
-                    else:
-                        gam2.fit(scn['X'][:k].copy(), scn['y'][:k].copy(), weights=scn['w'][:k].copy())
-                ref2 = Ref(gam2, Xq)
-                ok2 = np.isfinite(gam2.coef_).all() and np.isfinite(gam2.statistics_['cov']).all() and (ref2.known or ref2.n - ref2.edof > 1e-6)
-            except (ValueError, KeyError):
-                ok2 = False
-            if ok2:
-                res.count('refit of a queried model, intervals compared again')
-                d2 = dict(d, history='fit(all rows); interval queries; deep copy; fit(first %d rows); confidence_intervals with the earlier levels' % k)
-                with np.errstate(all='ignore'):
-                    got = gam2.confidence_intervals(Xq, quantiles=qs_ci)
-                compare(res, ref2, got, list(range(len(ref2.coef))), False, True, qs_ci, 'confidence_intervals', d2, Xq, [], [], link, 'Gen_flags_confidence_intervals',
-                        list(range(len(ref2.coef))), [0])
         if i < 12 or res.tier != 'quick':
             rejection_checks(res, gam, Xq, d)
         # observation (not part of the real-number model): a NaN level passes the guard `q >= 1 or q <= 0`
@@ -403,6 +460,10 @@ def run(res):
                 nan_levels_accepted += 1
             except ValueError:
                 pass
+        # LAST action of the scenario: the SAME object is refitted (fit on fewer rows, or gridsearch(keep_best=True)) after it has answered
+        # interval queries; the bounds must follow the CURRENT n - edof / covariance / coefficients (nothing cached on the object)
+        if i % 2 == 0 and scn['n'] >= 6:
+            refit_same_object(res, gam, scn, d, Xq, qs_ci, link, variant='gridsearch' if i % 4 == 2 else 'fit')
     if nan_levels_accepted:
         res.notes.append('observation: a NaN quantile level is not rejected (the guard is `q >= 1 or q <= 0`); all bounds come back NaN (%d models tried)' % nan_levels_accepted)
     with common.CaseDir(PROP) as cd:
